@@ -2,7 +2,7 @@
 // (through the Alloc template parameter), under ASan/UBSan.
 //   replay_history <dir with A.fits B.fits bad.fits bad2.fits> [failalloc:<k>] <token> ...      token = <object>:<op>[:<arg>[:<arg>]]
 //   failalloc:<k> makes the k-th allocate<T>() issued inside read / fit / convolve operations throw std::bad_alloc
-// ops: read:<file>  fit:ok1|ok2|badargs  key:<K>:<V>  rmkey:<K>  convolve:<dim>:<n>  permute:rev|bad  write:<file>
+// ops: read:<file>  fit:ok1|ok2|badargs  key:<K>:<V>  rmkey:<K>  convolve:<dim>:<n>  permute:rev|bad  write:<file>  cmpkeys:<other object>
 // Prints one line per operation and, after destroying the objects, the bytes never returned to the allocator and the
 // number of deallocations with a wrong size / unknown pointer.  Exit 1 if any of those is non-zero, 3 for an unsupported op.
 #include <photospline/splinetable.h>
@@ -55,6 +55,14 @@ int main(int argc,char**argv){
 				else if(op=="convolve"){ unsigned d=atoi(tk[2].c_str()), n=atoi(tk[3].c_str()); if(t.get_ndim()==0||d>=t.get_ndim()) res="skipped"; else{ std::vector<double> k(n); for(unsigned i=0;i<n;i++) k[i]=-0.5+i*(1.0/(n-1))+0.01*i*i; t.convolve(d,k.data(),n);} }
 				else if(op=="permute"){ uint32_t nd=t.get_ndim(); std::vector<size_t> p; if(tk[2]=="rev"){ for(uint32_t i=0;i<nd;i++) p.push_back(nd-1-i);} else { p.assign(nd?nd:1, nd==1?1:0);} t.permuteDimensions(p); }
 				else if(op=="write") t.write_fits(dir+"/"+tk[2]+".fits");
+				else if(op=="cmpkeys"){   // this object's key store against another object's: same keys in order, values equal up to trailing blanks
+					table_t& o=*objs[atoi(tk[2].c_str())]; bool same = t.get_naux_values()==o.get_naux_values();
+					for(size_t i=0; same && i<t.get_naux_values(); i++){
+						std::string k1=t.get_aux_key(i), k2=o.get_aux_key(i), v1=t.get_aux_value(k1.c_str()), v2=o.get_aux_value(k2.c_str());
+						while(!v1.empty()&&v1.back()==' ') v1.pop_back(); while(!v2.empty()&&v2.back()==' ') v2.pop_back();
+						if(k1!=k2 || v1!=v2){ same=false; printf("key %zu: [%s]=[%s] vs [%s]=[%s]\n", i, k1.c_str(), v1.c_str(), k2.c_str(), v2.c_str()); }
+					}
+					if(!same){ res="key stores differ"; bad++; } }
 				else { printf("unsupported op %s\n",op.c_str()); return 3; }
 			}catch(std::exception& ex){ res=std::string("exception: ")+ex.what(); }
 			Counter::enabled=false;
@@ -64,5 +72,5 @@ int main(int argc,char**argv){
 		}
 	}
 	printf("after destruction: %zu bytes never returned, %u deallocations with a wrong size / unknown pointer (%u null deallocations ignored)\n", Counter::cur, Counter::mismatches, Counter::nulls);
-	return (Counter::cur||Counter::mismatches)?1:0;
+	return (Counter::cur||Counter::mismatches||bad)?1:0;
 }
